@@ -1,9 +1,11 @@
 package core
 
 import (
+	"context"
 	"encoding/json"
 	"fmt"
 	"testing"
+	"time"
 
 	"github.com/koron-go/z80"
 	"github.com/koron-go/z80/verifharness/bus"
@@ -142,4 +144,78 @@ func init() {
 		m, _, _ := (&c14BlockRig{ib: bus.New(), mb: bus.New()}).run(&c)
 		return m, nil
 	}
+}
+
+// C14 under Run: R counts the fetches of every Step Run makes, the HALT's own and those spent halted on re-entry
+// included - a host that drives the CPU with Run sees the same refresh counter as one that calls Step.
+func TestC14Run(t *testing.T) {
+	col := stats.New("C14")
+	col.Sub = "run"
+	defer finish(t, col)
+	col.Rule = "run: generated terminating programs (C08's generator: break points, device scripts, 1..6 consecutive Run calls incl. calls on the parked CPU): after every Run call R and I equal those of a twin driven by " +
+		"Step through the same stop rule (whose Steps the other C14 tests compare with the fetch-count rule); non-trivial = a call that ends on a HALT; distinct by hash(case)"
+	rig := &c08Rig{}
+	rapid.Check(t, func(t *rapid.T) {
+		c, pcs, ok := genC08Case(t, rig, col)
+		if !ok {
+			return
+		}
+		var msg string
+		halts := 0
+		if pv := safely(func() {
+			rig.setup(&c)
+			rig.bps = map[uint16]bool{}
+			if !c.NilBP {
+				for _, b := range c.BPs {
+					rig.bps[b] = true
+				}
+			}
+			for call := 0; call < c.Runs && msg == ""; call++ {
+				werr, steps, ok := rig.twinRunLive()
+				if !ok {
+					halts = -1
+					return
+				}
+				ctx, cancel := context.WithTimeout(context.Background(), 20*time.Second)
+				gerr := rig.ca.Run(ctx)
+				cancel()
+				if gerr != werr || rig.ca.PC != rig.cb.PC {
+					halts = -1 // Run and Step disagree on where the call ends: C08's business
+					return
+				}
+				if rig.ca.IR != rig.cb.IR {
+					msg = fmt.Sprintf("Run call %d (%d Steps, ends with %v at PC=%04x): R=%02x I=%02x, the Step-driven twin has R=%02x I=%02x", call+1, steps, gerr, rig.ca.PC,
+						rig.ca.IR.Lo, rig.ca.IR.Hi, rig.cb.IR.Lo, rig.cb.IR.Hi)
+				}
+				if gerr == nil {
+					halts++
+				}
+			}
+		}); pv != nil {
+			col.Label("run:discarded:step-panics")
+			return
+		}
+		col.Eval(1)
+		if halts < 0 {
+			col.Label("run:no-verdict")
+			return
+		}
+		if msg != "" {
+			violation(t, "C14", "run", c, "R after Run equals R after the same Steps", msg)
+		}
+		if halts > 0 {
+			h := stats.Hash(uint64(c.Runs), uint64(len(c.BPs)), uint64(len(pcs)), c.SoupSeed, 0xC14)
+			if c.Prog != nil {
+				h = stats.Hash(h, c.Prog.Seed, uint64(c.Prog.L.CodeEnd))
+			}
+			col.Distinct(h)
+			col.Label("run:call-ends-on-halt")
+			if halts > 1 {
+				col.Label("run:called-again-on-the-parked-cpu")
+			}
+			if col.WantSample(h) && (c.Prog == nil || len(c.Prog.Bytes[0].Code) < 60) {
+				col.Sample(h, c)
+			}
+		}
+	})
 }
